@@ -94,6 +94,7 @@ type sim struct {
 	now     int64
 	blind bool // the record store ignores context cancellation (option blind=1)
 	deadlineErrs bool // injected errors wrap context.DeadlineExceeded (option dl=1)
+	missErrs     bool // an injected Lookup failure of a hook / delete / paused-retry consumer is ErrRecordNotFound (option nf=1)
 	openReceivers, openSenders atomic.Int64 // opened and not yet closed (C11: all closed once Stop has returned)
 	stamp   bool
 	// scheduling
@@ -404,6 +405,12 @@ func (st simStore) Lookup(ctx context.Context, runID string) (*workflow.Record, 
 	}
 	s.emit(p, st.lookupTok("LK", s.runN(runID), d, r))
 	if d != dOk {
+		if s.missErrs && (d == dErr || d == dErrAfter) && p != nil && len(p.unit) > 0 && (p.unit[0] == 'h' || p.unit[0] == 'd' || p.unit[0] == 'r') {
+			// a transient miss (a replica that does not have the run yet) as the failure of this lookup. Only for the
+			// consumers whose handler treats a missing record like any other lookup error (hook, delete, paused-retry):
+			// the modelled behaviour is the same error exit
+			return nil, fmt.Errorf("injected miss: %w", workflow.ErrRecordNotFound)
+		}
 		return nil, st.s.dispErr(d)
 	}
 	if r == nil {
